@@ -290,7 +290,13 @@ def rule_k(ctx):
     c07.rule_b(ctx)
     c07.rule_c(ctx)
 
+def rule_l(ctx):
+    """a blocked sender / an idle receiver is always woken when its condition becomes true (C12.b)"""
+    from . import c12
+    c12.rule_b(ctx)
+
 RULES = [
+    ("C04.l", "wake-up pairing of the mailbox (no stall while a slot is free)", rule_l),
     ("C04.k", "every due action is pulled through the helper and executed once (alone or chained in a SeqFuture polled to completion)", rule_k),
     ("C04.j", "the injector never looks empty while a bucket is queued", rule_j),
     ("C04.i", "a send completes only when enqueued; the receiver runs each handler to completion", rule_i),
